@@ -255,7 +255,7 @@ func genShortTarget(t *rapid.T, s int, maxN int) []string {
 func genK3(t *rapid.T, maxN int) []string {
 	fan := rapid.OneOf(rapid.SampledFrom([]int{10, 11, 12, 16, 17, 255, 256}), rapid.IntRange(11, 256)).Draw(t, "fan")
 	second := rapid.IntRange(0, 3).Draw(t, "second") // how many first-level children get a wide second level
-	fan2 := rapid.SampledFrom([]int{2, 10, 11, 12, 40}).Draw(t, "fan2")
+	fan2 := rapid.SampledFrom([]int{2, 10, 11, 12, 40, 256}).Draw(t, "fan2")
 	tailMax := rapid.IntRange(0, 3).Draw(t, "tailmax")
 	seed := rapid.Uint64().Draw(t, "seed")
 	pre := rapid.SliceOfN(rapid.Byte(), 0, 2).Draw(t, "pre")
@@ -263,6 +263,9 @@ func genK3(t *rapid.T, maxN int) []string {
 	// wide node that is not the root and carries a prefix), optionally a wide
 	// third level; "leafOnly": the other first-level children are single keys, so
 	// that every inner node near the top is wide
+	// "selfKey": the common prefix of a wide node is itself a key, so that the node
+	// also uses its end-of-key label (with fan 256: all 257 labels of a big node)
+	selfKey := rapid.Bool().Draw(t, "selfkey")
 	edgeMax := rapid.SampledFrom([]int{0, 0, 1, 2, 3, 8}).Draw(t, "edgemax")
 	leafOnly := rapid.Bool().Draw(t, "leafonly")
 	third := rapid.IntRange(0, 2).Draw(t, "third")
@@ -297,6 +300,12 @@ func genK3(t *rapid.T, maxN int) []string {
 		}
 		return string(b)
 	}
+	if selfKey {
+		set[string(pre)] = struct{}{}
+		if maxN < fan+1 {
+			maxN = fan + 1
+		}
+	}
 	for i := 0; i < fan && len(set) < maxN; i++ {
 		k := string(pre) + string([]byte{perm[i]})
 		if i < second {
@@ -306,6 +315,9 @@ func genK3(t *rapid.T, maxN int) []string {
 					e[x] = byte(rng.next())
 				}
 				k += string(e)
+			}
+			if selfKey && rng.intn(2) == 0 {
+				set[k] = struct{}{}
 			}
 			for j := 0; j < fan2 && len(set) < maxN; j++ {
 				k2 := k + string([]byte{perm[(j*7+i)%256]})
